@@ -10,6 +10,7 @@ import random
 
 from scen import Scn
 import scenario_common as sc
+import mcrapid
 
 PHASES = ["init", "dispatched", "responded", "reset", "slowreset", "failreset", "done"]
 
@@ -105,6 +106,8 @@ def scenarios(ctx):
 
 def run(ctx):
     ctx.level = "model_checking"
+    # E1: the property predicates as invariants of the composite (spec/MC_Rapid.tla)
+    mcrapid.check(ctx, ['NoCrash', 'StreamOwnerIsReserver'])
     ctx.assumptions += sc.ASSUME
     sc.run_families(ctx, scenarios(ctx), "second-caller")
     ctx.coverage["exhaustive"] = False
